@@ -24,7 +24,10 @@ def static_name(e):
 
 
 class ExprMixin:
-    def clamp(self, x, n):
+    def clamp(self, x, n, st=None):
+        if st is not None and not smt.is_const(x) and not self.spec_heap_params:
+            if self.entails(st, smt.And(smt.Le(smt.Int(0), x), smt.Le(x, n))):
+                return x
         if smt.is_const(x):
             c = smt.const_val(x)
             if c >= 0:
@@ -102,7 +105,20 @@ class ExprMixin:
             return [(st, self.result_sv)]
         return [(st, self.global_value(n, st))]
 
+    def ghost_entry(self, g, st):
+        """entry value of ghost variable g (deterministic names, so every state agrees on it)"""
+        ty = parse_type(C.GHOSTS[g])
+        ts = [self.ctx.const("g0_%s_%d" % (g, k), s) for k, s in enumerate(flatten(ty))]
+        v = SV(ty, ts)
+        for tt in self.wf(v):
+            if tt not in st.pc:
+                st.assume(tt)
+        st.env[g] = v
+        return v
+
     def global_value(self, n, st):
+        if n in C.GHOSTS:
+            return self.ghost_entry(n, st)
         if n in self.contract.bind:
             ty = parse_type(self.contract.bind[n])
             ts = [self.ctx.const("glob_%s_%d" % (n, k), s) for k, s in enumerate(flatten(ty))]
@@ -550,8 +566,8 @@ class ExprMixin:
         if k == "list" and base.ty.args[0].kind == "unknown":
             return base
         n = smt.Len(base.ts[0])
-        lo_t = smt.Int(0) if lo is None or lo.ty.kind == "none" else self.clamp(self.coerce(lo, TINT, st).t, n)
-        hi_t = n if hi is None or hi.ty.kind == "none" else self.clamp(self.coerce(hi, TINT, st).t, n)
+        lo_t = smt.Int(0) if lo is None or lo.ty.kind == "none" else self.clamp(self.coerce(lo, TINT, st).t, n, st)
+        hi_t = n if hi is None or hi.ty.kind == "none" else self.clamp(self.coerce(hi, TINT, st).t, n, st)
         ln = smt.Sub(hi_t, lo_t)
         if k == "list":
             # seq.extract with negative length is empty in both solvers' semantics
@@ -588,6 +604,8 @@ class ExprMixin:
             elif self.spec_mode:
                 # contract clauses index with non-negative positions only (DESIGN 3.3)
                 safe, pos = smt.TRUE, i
+            elif self.entails(st, smt.Ge(i, smt.Int(0))):
+                safe, pos = smt.Lt(i, n), i
             else:
                 safe = smt.And(smt.Le(smt.Sub(smt.Int(0), n), i), smt.Lt(i, n))
                 pos = smt.Ite(smt.Lt(i, smt.Int(0)), smt.Add(n, i), i)
